@@ -18,6 +18,7 @@ from __future__ import annotations
 import copy
 import json
 import math
+import signal
 import sys
 from fractions import Fraction
 
@@ -35,6 +36,15 @@ PI = float(np.pi)
 TWO_PI = float(2 * np.pi)
 TOL = 1e-9
 FUEL = 200          # raw draws one Gaussian.value() may consume in the model
+IMPL_TIMEOUT = 30   # seconds one case may take in the implementation (a resampling loop that never ends)
+
+
+class ImplTimeout(BaseException):
+    """raised by the alarm; BaseException so that no `except Exception` of the harness swallows it."""
+
+
+def _on_alarm(signum, frame):
+    raise ImplTimeout()
 
 
 # ----------------------------------------------------------------------------
@@ -602,8 +612,15 @@ class C14:
                     break
 
     def impl(self, c):
-        k = c["kind"]
-        obs = self._impl(c)
+        old = signal.signal(signal.SIGALRM, _on_alarm)
+        signal.setitimer(signal.ITIMER_REAL, IMPL_TIMEOUT)
+        try:
+            obs = self._impl(c)
+        except ImplTimeout:
+            obs = {"timeout": IMPL_TIMEOUT}
+        finally:
+            signal.setitimer(signal.ITIMER_REAL, 0)
+            signal.signal(signal.SIGALRM, old)
         self._cache[_key(c)] = obs
         return obs
 
@@ -701,6 +718,8 @@ class C14:
     def coq_expr(self, c):
         k = c["kind"]
         obs = self._obs(c)
+        if "timeout" in obs:
+            return "SL nil"
         tb = Tables()
         tb.add_cis(0)
         tb.add_cis(fr(PI) / 2)
@@ -764,6 +783,8 @@ class C14:
     def decode(self, c, sx):
         k = c["kind"]
         us = core.unscale
+        if "timeout" in self._obs(c):
+            return None
         dres = lambda x: {"ok": us(x[1])} if x[0] == 0 else {"err": core.ERR_CODES.get(x[1], f"code{x[1]}")}
         mat = lambda m: [[[us(a), us(b)] for a, b in row] for row in m]
         rng = lambda g: {"seeded": bool(g[0]), "src": g[1], "pos": g[2]}
@@ -808,6 +829,8 @@ class C14:
     # ----------------------------------------------------------------- compare
     def compare(self, c, a, b):
         k = c["kind"]
+        if "timeout" in a:
+            return None          # reported by the oracle
         if k == "decomp":
             if ("err" in a) != ("err" in b):
                 return f"outcome: implementation {_short(a)} vs model {_short(b)}"
@@ -885,6 +908,8 @@ class C14:
     # ------------------------------------------------------------------ oracle
     def oracle(self, c, obs):
         k = c["kind"]
+        if "timeout" in obs:
+            return f"implementation did not return within {obs['timeout']} s (a loop that never ends?)"
         if k == "decomp":
             U = tomat(c["U"])
             n = c["n"]
@@ -1032,6 +1057,8 @@ class C14:
     # ------------------------------------------------------------------- misc
     def nontrivial(self, c, obs):
         k = c["kind"]
+        if "timeout" in obs:
+            return False
         if k == "decomp":
             return c["n"] >= 2
         if k == "map":
